@@ -5,13 +5,13 @@ CONSTANTS
   NLt <- IntLt
   NOf <- IntOf
   NCap <- MCap
-  MatchRule = "padded"
+  MatchRule = "identity"
   MW = 2
   MD = 1
   ML = 2
   MCap = 5
-  MaxTruth = 3
-  MSlots = 1
+  MaxTruth = 4
+  MSlots = 2
   EnvIdx = {}
   EnvFromFile = FALSE
   Slots <- MSlotSet
